@@ -1241,6 +1241,10 @@ ws_stop(void *arg)
 			nni_mtx_lock(&d->mtx);
 			nni_list_node_remove(&ws->node);
 			ws->dialer = NULL;
+			// ws_dialer_stop waits for its pending list to drain
+			if (nni_list_empty(&d->wspend)) {
+				nni_cv_wake(&d->cv);
+			}
 			nni_mtx_unlock(&d->mtx);
 		}
 	}
